@@ -61,8 +61,10 @@ class C12(Prop):
         else:
             small = [n for n in small if n < 5000 or bin(n).count("1") <= 3 or n % 97 == 0]
         for n in small:
-            for via in ("lib", "cli", "config"):
-                if via == "config" and n < 0:
+            for via in ("lib", "cli", "config", "interactive"):
+                if via in ("config", "interactive") and n <= 0:
+                    continue        # (an empty / non-positive answer means "not supplied" to the dialog)
+                if via == "interactive" and n % 3:
                     continue
                 x = {"kind": "int", "value": str(n)} if via == "lib" else {"kind": "str", "text": str(n)}
                 if via != "lib" and n < 0:
